@@ -164,6 +164,10 @@ pub struct TypeChecker {
 
     // Graph of references in definitions
     references: RefGraph,
+
+    /// Variables that callers of filtermaps got for verdict sides that were
+    /// unknown at the time, with the side each stands for and the call
+    filtermap_sides: Vec<(Type, Type, MetaId)>,
 }
 
 /// Result of type checking
@@ -190,6 +194,7 @@ impl TypeChecker {
             block_counter: 0,
             obligations: Vec::new(),
             references: RefGraph::new(),
+            filtermap_sides: Vec::new(),
         };
         checker.declare_builtin_types().unwrap();
         checker
@@ -218,7 +223,7 @@ impl TypeChecker {
 
         self.declare_functions(&modules)?;
         self.tree(&modules)?;
-        self.force_filtermap_types(&modules);
+        self.force_filtermap_types(&modules)?;
 
         let order = self.find_compilation_order()?;
         Ok((self.type_info, order))
@@ -1028,7 +1033,41 @@ impl TypeChecker {
         Ok(())
     }
 
-    fn force_filtermap_types(&mut self, modules: &[(ScopeRef, &Module)]) {
+    fn force_filtermap_types(
+        &mut self,
+        modules: &[(ScopeRef, &Module)],
+    ) -> TypeResult<()> {
+        // Callers first see the sides that the filtermaps' own bodies have
+        // determined (possibly through other filtermaps) ...
+        let mut sides = std::mem::take(&mut self.filtermap_sides);
+        loop {
+            let before = sides.len();
+            let mut rest = Vec::new();
+            for (own, side, id) in sides {
+                if let Type::Var(_) = self.resolve_type(&side) {
+                    rest.push((own, side, id));
+                } else {
+                    self.unify(&own, &side, id, None)?;
+                }
+            }
+            sides = rest;
+            if sides.len() == before {
+                break;
+            }
+        }
+
+        // ... and then the unit type for the sides that are never used.
+        self.force_unused_filtermap_sides(modules);
+        for (own, side, id) in sides {
+            self.unify(&own, &side, id, None)?;
+        }
+        Ok(())
+    }
+
+    fn force_unused_filtermap_sides(
+        &mut self,
+        modules: &[(ScopeRef, &Module)],
+    ) {
         for &(_, module) in modules {
             for expr in &module.ast.declarations {
                 if let ast::Declaration::FilterMap(f) = &expr {
